@@ -688,7 +688,7 @@ static void build_expr(WorkList *list, ASTNode *expr, Environment *env) {
             if (expr->as.float_val == (double)(int64_t)expr->as.float_val) {
                 emit_formatted(list, "%.1f", expr->as.float_val);
             } else {
-                emit_formatted(list, "%g", expr->as.float_val);
+                emit_formatted(list, "%.17g", expr->as.float_val);
             }
             break;
             
@@ -708,7 +708,7 @@ static void build_expr(WorkList *list, ASTNode *expr, Environment *env) {
                     emit_formatted(list, "%lldLL", (long long)sym->value.as.int_val);
                     return;
                 } else if (sym->value.type == VAL_FLOAT) {
-                    emit_formatted(list, "%g", sym->value.as.float_val);
+                    emit_formatted(list, "%.17g", sym->value.as.float_val);
                     return;
                 } else if (sym->value.type == VAL_BOOL) {
                     emit_literal(list, sym->value.as.bool_val ? "true" : "false");
